@@ -19,7 +19,8 @@
 //!        public shape() on a font that carries the morx table of the recipe next to other layout tables.
 //!        env (for the model only, rbshim reads the font): gsub,gpos,gposkern,kerx,kern,gdef as 0/1 digits + the
 //!        GSUB single substitution as gid>gid pairs.
-//!        reply: ok <g:c,...> P <apply_morx><apply_gpos><apply_kerx><apply_kern>   (plan hook)
+//!        reply: ok <g:c,...> P <apply_morx><apply_gpos><apply_kerx><apply_kern> A <x_advance,...|->
+//!        (P from the plan hook; A is for the search oracle only, the model has no positions: the check cuts it off)
 use super::util::hex_bytes;
 use rustybuzz::ttf_parser::Tag;
 use rustybuzz::verif::{aat_map as am, morx as mx};
@@ -218,13 +219,23 @@ pub fn handle(toks: &[&str], _st: &mut crate::State) -> Option<String> {
                 .iter()
                 .map(|i| (i.glyph_id, i.cluster))
                 .collect();
+            let adv: Vec<String> = gb
+                .glyph_positions()
+                .iter()
+                .map(|p| p.x_advance.to_string())
+                .collect();
             Some(format!(
-                "ok {} P {}{}{}{}",
+                "ok {} P {}{}{}{} A {}",
                 fmt_glyphs(&v),
                 p[0] as u8,
                 p[1] as u8,
                 p[2] as u8,
-                p[3] as u8
+                p[3] as u8,
+                if adv.is_empty() {
+                    "-".to_string()
+                } else {
+                    adv.join(",")
+                }
             ))
         }
         "shape" => {
